@@ -176,7 +176,7 @@ def render_extraction(ex, gsubs, canary=None):
     lo_off, hi_off = item.head_start, item.end
     text = src[lo_off:hi_off]
     base_line = _loc(src, lo_off)
-    if item.kind == "fn" and not ex.keep_vis:
+    if item.kind in ("fn", "const", "static") and not ex.keep_vis:
         # visibility is irrelevant to verification and `pub` would forbid contracts that mention
         # private fields: blank `pub` / `pub(..)` in front of the fn keyword
         k = item.tok_lo
@@ -369,6 +369,13 @@ def render_extraction(ex, gsubs, canary=None):
 
     joined = "\n".join(l.text for l in result)
     nlines = len(result)
+    # built-in: hex_literal::hex!("..") -> byte array literal (the macro is not available to a single file)
+    def _hexlit(m):
+        h = m.group(1)
+        arr = "[" + ", ".join("0x%s_u8" % h[i:i + 2] for i in range(0, len(h), 2)) + "]"
+        return arr + "\n" * m.group(0).count("\n")
+    joined = re.sub(r'\bhex!\(\s*"([0-9a-fA-F]*)"\s*\)', _hexlit, joined)
+    joined = _rewrite_assert_eq(joined)
     for count, rx, repl, lno in list(gsubs) + ex.subs:
         def _keep_lines(m, repl=repl):
             out = m.expand(repl)
@@ -452,6 +459,48 @@ def _expand_foreach(lines, rel):
         out.append(lines[i])
         i += 1
     return out
+
+
+def _rewrite_assert_eq(text):
+    """assert_eq!(a, b) / debug_assert_eq!(a, b)  ->  assert!(a == b) / debug_assert!(a == b)
+    (core::panicking::assert_failed has no Verus spec; the panic condition is the same).  Token based."""
+    if "assert_eq!" not in text:
+        return text
+    toks = rustlex.lex(text)
+    edits = []
+    for i, t in enumerate(toks):
+        if t.kind == "ident" and t.text in ("assert_eq", "debug_assert_eq") and i + 2 < len(toks) \
+                and toks[i + 1].text == "!" and toks[i + 2].text == "(":
+            close = rustlex.match_close(toks, i + 2)
+            depth = 0
+            comma = None
+            for k in range(i + 3, close):
+                if toks[k].text in rustlex.OPEN:
+                    depth += 1
+                elif toks[k].text in rustlex.CLOSE:
+                    depth -= 1
+                elif toks[k].text == "," and depth == 0:
+                    comma = k
+                    break
+            if comma is None:
+                continue
+            # only the two-argument form (no format message) is rewritten
+            depth = 0
+            extra = False
+            for k in range(comma + 1, close):
+                if toks[k].text in rustlex.OPEN:
+                    depth += 1
+                elif toks[k].text in rustlex.CLOSE:
+                    depth -= 1
+                elif toks[k].text == "," and depth == 0 and k != close - 1:
+                    extra = True
+            if extra:
+                continue
+            edits.append((t.start, t.end, t.text[:-3]))
+            edits.append((toks[comma].start, toks[comma].end, " =="))
+    for a, b, r in sorted(edits, reverse=True):
+        text = text[:a] + r + text[b:]
+    return text
 
 
 def _qual_name(selector, name):
